@@ -18,15 +18,20 @@ PID = 'C03'
 _RUN = {}
 
 
-# 22 slots (big hand-over twice): 4 hand-over, dispatch, hostile output, count-down, 2 pending return, 2 label table / two labels, 2 self return,
+# 23 slots (big hand-over twice, forward_jump = -3): 4 hand-over, dispatch, hostile output, count-down, 2 pending return, 2 label table / two labels, 2 self return,
 # big hand-over, NaN variants, tiny, general mix (0.87), 2 stack 0 as data (-1), 2 zoo (-2)
-QUOTA = [0.05, -1, 0.15, -2, 0.25, 0.29, 0.35, 0.44, 0.5, 0.58, -1, 0.62, 0.7, -2, 0.75, 0.82, 0.9, 0.95, 0.99, 0.87, 0.84, 0.91]
+QUOTA = [0.05, -1, 0.15, -2, 0.25, 0.29, 0.35, 0.44, 0.5, 0.58, -1, 0.62, 0.7, -2, 0.75, 0.82, 0.9, 0.95, 0.99, 0.87, 0.84, 0.91, -3]
 
 
 def _gen(rng, i=None):
     # a fixed schedule by case index (not a coin per case) so that every run contains every shape
     k = rng.random() if i is None else QUOTA[i % len(QUOTA)]
-    if k == -2:
+    if k == -3:
+        # label hearts in every area position (also under `!` in the left operand of `?`), forward jumps to registered labels
+        name, prog = 'tmpl:forward_jump', gen.tmpl_forward_jump(rng)
+        if rng.random() < 0.5:
+            prog = prog + gen.read_fragment(rng) + gen.print_chars([65], 3, 1)
+    elif k == -2:
         # many different command forms per compilation (each C03 case costs three rustc runs)
         name, prog = 'tmpl:zoo', gen.tmpl_zoo(rng)
     elif k == -1:
